@@ -2,9 +2,11 @@
    (path -> attributes): model of fstree_init, fstree_get_node_by_path (as
    called with create_implicitly = true, stop_at_parent = true),
    fstree_add_generic and mknode of lib/fstree/src/fstree.c for the calls the
-   pack file parser makes (canonical names, ent->flags = 0).  Not modelled:
-   link counts (EMLINK after 2^32 children), time stamps, the sorted sibling
-   order (C11), hard link entries (unreachable from the parser, see NOTES.md).
+   pack file parser makes (canonical names; ent->flags = 0 or, for the `link`
+   keyword, SQFS_DIR_ENTRY_FLAG_HARD_LINK: the node becomes S_IFLNK|0777 with
+   FLAG_LINK_IS_HARD and a canonicalised target).  Not modelled: link counts
+   (EMLINK after 2^32 children), time stamps, the sorted sibling order (C11),
+   the links_unresolved list / fstree_resolve_hard_links (C07).
    The state is the list of nodes in creation order.  Definitions only. *)
 From Coq Require Import List NArith Bool.
 From SqfsV Require Import C18.CanonModel C18.CanonSpec C16.GenC16 C16.ParseModel.
@@ -16,7 +18,8 @@ Record fnode := {
   f_mode : N; f_uid : N; f_gid : N;
   f_devno : N;                   (* data.devno of block / character devices, else 0 *)
   f_extra : option (list N);     (* data.target / data.file.input_file *)
-  f_implicit : bool }.           (* FLAG_DIR_CREATED_IMPLICITLY *)
+  f_implicit : bool;             (* FLAG_DIR_CREATED_IMPLICITLY *)
+  f_hard : bool }.               (* FLAG_LINK_IS_HARD *)
 
 Fixpoint path_eqb (a b : list (list N)) : bool :=
   match a, b with
@@ -39,7 +42,7 @@ Section Fs.
 
   Definition implicit_dir (p : list (list N)) : fnode :=
     {| f_path := p; f_mode := N.lor c_S_IFDIR (N.land def_mode 4095); f_uid := def_uid; f_gid := def_gid;
-       f_devno := 0; f_extra := None; f_implicit := true |}.
+       f_devno := 0; f_extra := None; f_implicit := true; f_hard := false |}.
 
   (* fstree_init *)
   Definition fs_init : list fnode := [implicit_dir []].
@@ -73,7 +76,13 @@ Section Fs.
        f_uid := uid; f_gid := gid;
        f_devno := if kind_is mode c_S_IFBLK || kind_is mode c_S_IFCHR then rdev else 0;
        f_extra := if kind_is mode c_S_IFREG || kind_is mode c_S_IFLNK then extra else None;
-       f_implicit := false |}.
+       f_implicit := false; f_hard := false |}.
+
+  (* mknode for ent->flags & SQFS_DIR_ENTRY_FLAG_HARD_LINK: the target is canonicalised in place
+     (failure = EINVAL), the mode is forced to S_IFLNK | 0777, FLAG_LINK_IS_HARD is set *)
+  Definition hard_node (p : list (list N)) (uid gid : N) (target : list N) : fnode :=
+    {| f_path := p; f_mode := N.lor c_S_IFLNK 511; f_uid := uid; f_gid := gid;
+       f_devno := 0; f_extra := Some target; f_implicit := false; f_hard := true |}.
 
   Fixpoint fs_replace (fs : list fnode) (p : list (list N)) (n : fnode) : list fnode :=
     match fs with
@@ -82,31 +91,58 @@ Section Fs.
     end.
 
   (* the part of fstree_add_generic after label out *)
+  Definition add_at_node (fs : list fnode) (p : list (list N)) (mode uid gid : N)
+             (nd : fnode) : option (list fnode) :=
+    match fs_find fs p with
+    | Some child =>
+      if kind_is (f_mode child) c_S_IFDIR && kind_is mode c_S_IFDIR && f_implicit child then
+        Some (fs_replace fs p {| f_path := p; f_mode := mode; f_uid := uid; f_gid := gid;
+                                 f_devno := f_devno child; f_extra := f_extra child; f_implicit := false;
+                                 f_hard := f_hard child |})
+      else None                                                      (* EEXIST *)
+    | None => Some (fs ++ [nd])
+    end.
+
   Definition add_at (fs : list fnode) (p : list (list N)) (mode uid gid rdev : N)
              (extra : option (list N)) : option (list fnode) :=
     match fs_find fs p with
     | Some child =>
       if kind_is (f_mode child) c_S_IFDIR && kind_is mode c_S_IFDIR && f_implicit child then
         Some (fs_replace fs p {| f_path := p; f_mode := mode; f_uid := uid; f_gid := gid;
-                                 f_devno := f_devno child; f_extra := f_extra child; f_implicit := false |})
+                                 f_devno := f_devno child; f_extra := f_extra child; f_implicit := false;
+                                 f_hard := f_hard child |})
       else None                                                      (* EEXIST *)
     | None => Some (fs ++ [stored_node p mode uid gid rdev extra])
+    end.
+
+  (* a `link` entry: ent->mode is S_IFLNK | perm (never a directory, so an existing node is EEXIST) *)
+  Definition add_hard (fs : list fnode) (p : list (list N)) (mode uid gid : N)
+             (extra : option (list N)) : option (list fnode) :=
+    match extra with
+    | None => None
+    | Some e =>
+      match canon_model (cstr e) with
+      | CanonOk tgt => add_at_node fs p mode uid gid (hard_node p uid gid tgt)
+      | _ => None                                                    (* mknode: EINVAL *)
+      end
     end.
 
   Definition fs_add (fs : list fnode) (c : call) : option (list fnode) :=
     match c with
     | CGlob _ _ _ _ _ _ => None                                      (* not modelled *)
     | CAdd name mode uid gid rdev flags extra =>
-      if negb (N.eqb flags 0) then None                              (* hard links: not modelled *)
+      let hard := has_flag flags c_SQFS_DIR_ENTRY_FLAG_HARD_LINK in
+      if negb (N.eqb flags 0) && negb hard then None                 (* no other entry flag reaches the tree *)
       else if kind_is mode c_S_IFLNK && match extra with None => true | Some _ => false end then None  (* EINVAL *)
       else
+        let put fs p := if hard then add_hard fs p mode uid gid extra else add_at fs p mode uid gid rdev extra in
         match name with
-        | [] => add_at fs [] mode uid gid rdev extra
+        | [] => put fs []
         | _ =>
           let comps := split_slash name in
           match get_parent fs [] comps with
           | None => None
-          | Some (fs1, parent) => add_at fs1 (parent ++ [last comps []]) mode uid gid rdev extra
+          | Some (fs1, parent) => put fs1 (parent ++ [last comps []])
           end
         end
     end.
